@@ -1,4 +1,4 @@
-import Qfproto.Sorter
+import QF.Core.Sorter
 namespace Sorter
 
 theorem sw_perm (a : Ix) (i j : Nat) : (sw a i j).Perm a := by
